@@ -38,6 +38,20 @@ K_TOTAL3 = [_k('total3_%s' % t, 'serde_amqp::from_slice::<%s>' % t,
                'every byte string of length <= 3 decodes as %s to Ok or Err: no panic, no arithmetic overflow' % t, False,
                bound='input length <= 3 bytes (all 2^24+ strings)') for t in ['u32', 'u64', 'i32', 'i64', 'bool', 'u8', 'u16', 'char']]
 
+K_HDR_QUICK = [_k('hdr3_list8_vec', 'serde_amqp::from_slice::<Vec<u8>>', 'list8 header with fully symbolic size and count bytes (0xc0 size count) decodes to Ok or Err: no panic, no arithmetic overflow', False,
+                  bound='input = exactly 3 bytes, size and count symbolic (65536 cases)')]
+K_HDR_THOROUGH = [
+    _k('total_list8_header_vec_u8', 'serde_amqp::from_slice::<Vec<u8>>', 'list8 header + 2 symbolic bytes, every prefix length 0..5: Ok or Err, no panic/overflow', False, bound='<= 5 bytes, 4 symbolic', tier='thorough', timeout=3000),
+]
+K_READER = [_k('reader_agrees_u32', 'serde_amqp::{from_slice,from_reader}::<u32>', 'for every 7-byte string: decoding a u32 from the slice and from an io::Read cursor give the same result and the cursor has advanced by exactly the length of the encoding (the tail is untouched)', False,
+               bound='7-byte inputs (all 2^56), one value followed by an arbitrary tail')]
+K_SASL = [
+    _k('plain_init_iff_valid', 'fe2o3_amqp::acceptor::SaslPlainMechanism::on_init', 'for every initial response of <= 7 bytes: outcome code is Ok IFF the response is authzid NUL "ab" NUL "cd" [NUL ...] for the configured user "ab"/password "cd" (prefixes, one-byte differences, missing fields, empty fields are all refused)', False,
+       bound='response length <= 7 bytes (all strings), fixed 2-byte user and password', crate='amqp', timeout=1800),
+    _k('plain_missing_response_and_on_response_never_ok', 'fe2o3_amqp::acceptor::SaslPlainMechanism::{on_init,on_response}', 'no initial response => not Ok; a SASL response frame (never expected by PLAIN) with any 3 bytes => not Ok', False,
+       bound='3 symbolic bytes', crate='amqp', timeout=1800),
+]
+
 ASYNC = 'async fn bodies are verified with .await erased (R3): sound for the state reached through the exclusive &mut self borrow, says nothing about interleavings through shared Arc state or cancellation'
 ENGINE = 'that the tokio engine tasks (select! loops, mpsc channels) call these functions once per frame in arrival order is not verified'
 
@@ -64,16 +78,24 @@ PROPS = {
             'NOT DECIDED: strings/symbols/binaries of arbitrary length and Unicode content, arbitrary nesting of lists/maps/arrays/described values, the derive-macro output for the typed protocol items (performatives, SASL bodies, delivery states, messages) -- serde visitor code is outside the Verus subset and too large for CBMC beyond small bounds',
             'compound header writers: the call-site fact count <= byte length (every element occupies at least one byte in this implementation) is assumed; the serde SerializeSeq/Map impls that call them are not under contract']),
     'C20': dict(
-        units=['FRAMEDEC'], kani=K_RT, level='proof', title='Codec entry points agree (primitives; frame payload)',
+        units=['FRAMEDEC'], kani=K_RT + K_READER, level='proof', title='Codec entry points agree (primitives; frame payload)',
         assumptions=[
             'PROVED for every value: the fixed-width primitives listed in the obligations (Kani harnesses, loop-free / fully unwound over the full domain) and the compound header writers (Verus)',
             'BOUNDED ONLY (listed under bounded_obligations, never counted as proved): decoders on short byte strings, compound headers with hostile size/count bytes',
             'NOT DECIDED: strings/symbols/binaries of arbitrary length and Unicode content, arbitrary nesting of lists/maps/arrays/described values, the derive-macro output for the typed protocol items (performatives, SASL bodies, delivery states, messages) -- serde visitor code is outside the Verus subset and too large for CBMC beyond small bounds',
             'compound header writers: the call-site fact count <= byte length (every element occupies at least one byte in this implementation) is assumed; the serde SerializeSeq/Map impls that call them are not under contract'] + ['to_value/from_value vs bytes is not covered yet']),
     'C04': dict(
-        units=[], kani=K_TOTAL3, level='model_checking', manifest_level='model_checking', title='Decoding untrusted bytes (bounded only)',
+        units=[], kani=K_TOTAL3 + K_HDR_QUICK + K_HDR_THOROUGH, level='model_checking', manifest_level='model_checking', title='Decoding untrusted bytes (bounded only)',
         level_text='BOUNDED stand-in only: Kani/CBMC explores every byte string up to the stated length for each listed type on the real serde_amqp crate with overflow checks and unwinding assertions on. Nothing here is counted as proved; recursion depth, allocation size and progress are not decided.',
         assumptions=['bounded: input length <= 3 bytes per harness (all strings)', 'stack depth, allocation proportional to input, no-loop-without-consuming are NOT decided (a CBMC run cannot bound the real process)', 'structure-aware corruptions of longer encodings are covered only by the thorough-tier compound-header harnesses']),
+    'C19': dict(
+        units=['FRAMEDEC'], kani=K_SASL, level='proof', title='SASL (PLAIN validator bounded; SASL frame decoder proved total)',
+        level_text='The SASL frame decoder (frames/sasl.rs FrameCodec::decode) is under a Verus contract: any body yields Ok or Err, a non-SASL frame type is refused. The PLAIN credential validator is checked by Kani on the real fe2o3-amqp crate for every initial response up to 7 bytes against an independent oracle -- a BOUNDED stand-in listed under bounded_obligations, not counted as proved.',
+        assumptions=[
+            'bounded: PLAIN initial responses of <= 7 bytes with a fixed 2-byte user and password; longer credentials/responses are not decided',
+            'NOT DECIDED: the listener negotiation loop (acceptor/connection.rs: only an Ok outcome re-arms the AMQP header codec), the client side (sasl_profile), out-of-order frame sequences, a skipped SASL layer / premature AMQP header',
+            'NOT DECIDED: SCRAM (string splitting, base64, HMAC/PBKDF2: outside Verus (no str reasoning) and beyond CBMC within resource limits)',
+            'PLAIN does not check that init.mechanism == PLAIN (observed, not part of the property)']),
     'C06': dict(
         units=['FRAMEENC', 'FRAMEDEC', 'CONNENG', 'TRANSPORT'], kani=[], level='proof', title='Frames on the wire',
         lemmas={'FRAMEENC': ['lemma_expected_properties', 'lemma_cut_points', 'lemma_mids_payload', 'lemma_mids_sizes', 'lemma_flatten_append', 'lemma_payloads_append']},
